@@ -108,7 +108,7 @@ func (e *Env) RejectDiags(r *Res) []string {
 			continue
 		}
 		low := strings.ToLower(ll.Msg)
-		if strings.HasPrefix(low, "warning:") || ll.Level == "warn" || ll.Level == "warning" {
+		if strings.HasPrefix(low, "warning:") || strings.HasPrefix(low, "warn:") || ll.Level == "warn" || ll.Level == "warning" {
 			if !strings.Contains(low, "fail") && !strings.Contains(low, "not found") {
 				continue
 			}
